@@ -19,6 +19,7 @@ pub mod c18;
 pub mod c19;
 pub mod c20;
 pub mod tools_sm2;
+pub mod warmup;
 pub mod zuc_state;
 
 use crate::mon::Ctx;
@@ -26,6 +27,9 @@ use crate::mon::Ctx;
 /// Returns false for an unknown property id.
 pub fn run(prop: &str, ctx: &mut Ctx, extra: &[String]) -> bool {
     let _ = extra;
+    if prop.len() == 3 && prop.starts_with('C') {
+        warmup::run(prop, ctx);
+    }
     match prop {
         "C01" => c01::run(ctx),
         "C02" => c02::run(ctx),
